@@ -170,7 +170,11 @@ def run(ctx):
                 call = c
         ok = call is not None and len(call.args) == 1 and isinstance(call.args[0], ast.Name) and \
             call.args[0].id in fi.all_params() and call.args[0].id == 'seed'
-        ctx.ob('RNG', 'the generator is derived from the seed argument', fi, ok,
+        if not ok and call is not None and len(call.args) == 1:
+            # a child generator seeded by a draw from the owner's generator: default_rng(int(<owner>.rng.integers(...)))
+            src = ast.unparse(call.args[0])
+            ok = '.rng.integers(' in src and not any(isinstance(x, ast.Call) and ast.unparse(x.func).endswith('time') for x in ast.walk(call.args[0]))
+        ctx.ob('RNG', 'the generator is derived from the seed argument (or seeded by a draw from the owner\'s generator)', fi, ok,
                {'call': ast.unparse(call) if call is not None else ast.unparse(n)}, node=call or n)
     # (c) children receive separate draws from the owner's generator
     for short in ('voltage.antenna.Antenna.__init__', 'voltage.antenna.MultiAntennaArray.__init__'):
